@@ -151,5 +151,6 @@ mut('c20-touches-other-file', 'C20', ER, "        print('Done editing, writing b
 mut('c16-total-by-builtin-sum', 'C16', G, "        prob_target = random.random() * total_prob", "        prob_target = random.random() * sum(item['prob'] for item in self.base)", desc='builtin sum() is compensated on 3.12 and can exceed the naive running sum by an ulp: a draw next to 1 selects nothing')
 mut('revert-F-C05', 'C05', AD, "if len(working_string) != len(section[0]):", "if False:")
 mut('revert-F-C05-email', 'C05', DR + 'email_detection.py', "if len(working_string) != len(section[0]):", "if False:")
+mut('revert-F-C13', 'C13', PS, "                if rebuilt != original:", "                if False:")
 json.dump(M, open(os.path.join(os.path.dirname(os.path.abspath(__file__)), 'mutants.json'), 'w'), indent=1)
 print(len(M), 'mutants')
